@@ -459,3 +459,20 @@ def sub_cases(rng, cls, lk, all_subsets_upto=4, oor_p=0.04):
 
 def coq_term_sub(case):
     return None      # the oracle values (set order, returned map) come from the implementation run; cross-checked through the other properties' samples
+
+
+# ---- exhaustive small scopes (thorough tier): every history of the given depth over a small alphabet on n vertices ----
+def exhaustive_histories(cls, lk, n, depth, rich):
+    import itertools
+    pairs = [(i, j) for i in range(n) for j in range(n)]
+    if cls in ('D', 'U'):
+        labs = [1, 2] if (rich and lk != 'none') else [1]
+        alpha = ['A %d %d %d 0' % (i, j, l) for i, j in pairs for l in labs] + ['R %d %d' % p for p in pairs] + ['V %d' % v for v in range(n)] + ['SL', 'CL']
+        if rich: alpha += ['SLB %d %d 3 0' % p for p in pairs] + ['RZ %d' % (n + 1), 'A %d %d 2 1' % pairs[-1], 'DD'] + (['AR 0 %d 1 0' % (n - 1)] if cls == 'D' else [])
+    elif cls in ('DM', 'UM'):
+        alpha = ['MA %d %d %d 0' % (i, j, k) for i, j in pairs for k in ((1, 2) if rich else (1,))] + ['MR %d %d %d' % (i, j, k) for i, j in pairs for k in ((1, 3) if rich else (1,))] + ['V %d' % v for v in range(n)] + ['SL', 'CL']
+        if rich: alpha += ['MS %d %d %d' % (i, j, k) for i, j in pairs for k in (0, 2)]
+    else:
+        alpha = ['WA %d %d %d 0' % (i, j, w) for i, j in pairs for w in ((4, -2) if rich else (4,))] + ['R %d %d' % p for p in pairs] + ['V %d' % v for v in range(n)] + ['SL', 'CL']
+        if rich: alpha += ['WS %d %d %d' % (i, j, w) for i, j in pairs for w in (0, 6)]
+    return ['%s %s %d : %s' % (cls, lk, n, ' ; '.join(h)) for h in itertools.product(alpha, repeat=depth)]
